@@ -29,7 +29,8 @@ class Group:
     def __init__(self, last):
         self.last = last            # last-delivered id
         self.pending = {}           # id -> consumer
-        self.consumers = set()
+        self.consumers = set()      # consumers that certainly exist (created explicitly or given entries)
+        self.maybe = set()          # consumers named by a read / claim that got nothing: creation is a don't-care
 
 
 class StreamModel:
@@ -253,3 +254,350 @@ class StreamCommands:
         if not out:
             return OneOf([], NULL_ARRAY, None)
         return out
+
+
+# ============================================================================ consumer groups (C16)
+class GroupInfo:
+    """Matcher for one XINFO GROUPS / CONSUMERS element: a flat field list compared
+    on the fields the statement covers."""
+
+    def __init__(self, want):
+        self.want = want
+
+    def __repr__(self):
+        return "GroupInfo(%r)" % (self.want,)
+
+
+def _as_int(v):
+    if isinstance(v, bool):
+        return None
+    if isinstance(v, int):
+        return v
+    if isinstance(v, bytes) and v.isdigit():
+        return int(v)
+    return None
+
+
+def match_info(want, act):
+    if not isinstance(act, list) or len(act) % 2:
+        return False
+    got = {}
+    for i in range(0, len(act), 2):
+        if isinstance(act[i], bytes):
+            got[act[i]] = act[i + 1]
+    for k, v in want.items():
+        if k not in got:
+            return False
+        g = got[k]
+        if isinstance(v, int):
+            if _as_int(g) != v:
+                return False
+        elif g != v:
+            return False
+    return True
+
+
+def _group_cmds(cls):
+    from .model import ERR, OK, Adopt, OneOf, Unordered, parse_int, Pairs
+
+    def _grp(self, db, key, gname):
+        e, wt = self._stream(db, key)
+        if wt:
+            return None, None, ERR
+        if e is None:
+            return None, None, None
+        return e, e.v.groups.get(gname), None
+
+    def c_XGROUP(self, db, a):
+        if len(a) < 2:
+            return ERR
+        sub = a[0].upper()
+        if sub == b"CREATE":
+            if len(a) not in (4, 5):
+                return ERR
+            key, g, idb = a[1], a[2], a[3]
+            mk = len(a) == 5 and a[4].upper() == b"MKSTREAM"
+            if len(a) == 5 and not mk:
+                return ERR
+            e, wt = self._stream(db, key)
+            if wt:
+                return ERR
+            if e is None and not mk:
+                return ERR
+            if idb == b"$":
+                start = e.v.last if e is not None else (0, 0)
+            elif idb in (b"0", b"0-0"):
+                start = (0, 0)
+            else:
+                start = parse_id(idb)
+                if start is None:
+                    return ERR
+            if e is None:
+                from .model import Entry
+                e = Entry("stream", StreamModel())
+                self.m.dbs[db][key] = e
+            if g in e.v.groups:
+                return ERR
+            e.v.groups[g] = Group(start)
+            return OK
+        if sub == b"DESTROY":
+            if len(a) != 3:
+                return ERR
+            e, grp, err = self._grp(db, a[1], a[2])
+            if err is not None:
+                return err
+            if e is None:
+                from .model import ANY
+                return ANY
+            if grp is None:
+                return 0
+            del e.v.groups[a[2]]
+            return 1
+        if sub == b"SETID":
+            if len(a) != 4:
+                return ERR
+            e, grp, err = self._grp(db, a[1], a[2])
+            if err is not None or e is None or grp is None:
+                return ERR
+            if a[3] == b"$":
+                nid = e.v.last
+            elif a[3] in (b"0", b"0-0"):
+                nid = (0, 0)
+            else:
+                nid = parse_id(a[3])
+                if nid is None:
+                    return ERR
+            grp.last = nid
+            return OK
+        if sub == b"CREATECONSUMER":
+            if len(a) != 4:
+                return ERR
+            e, grp, err = self._grp(db, a[1], a[2])
+            if err is not None:
+                return err
+            if e is None or grp is None:
+                from .model import ANY
+                return ANY          # missing group: NOGROUP error vs 0/1 is not judged
+            if a[3] in grp.consumers:
+                return 0
+            was_maybe = a[3] in grp.maybe
+            grp.maybe.discard(a[3])
+            grp.consumers.add(a[3])
+            return OneOf(0, 1) if was_maybe else 1
+        if sub == b"DELCONSUMER":
+            if len(a) != 4:
+                return ERR
+            e, grp, err = self._grp(db, a[1], a[2])
+            if err is not None:
+                return err
+            if e is None or grp is None:
+                from .model import ANY
+                return ANY
+            n = 0
+            for i in [i for i, c in grp.pending.items() if c == a[3]]:
+                del grp.pending[i]
+                n += 1
+            grp.consumers.discard(a[3])
+            grp.maybe.discard(a[3])
+            return n
+        return ERR
+
+    def c_XREADGROUP(self, db, a):
+        # XREADGROUP GROUP g c [COUNT n] [NOACK] STREAMS key >
+        if len(a) < 6 or a[0].upper() != b"GROUP":
+            return ERR
+        g, cons = a[1], a[2]
+        cnt = None
+        noack = False
+        i = 3
+        while i < len(a):
+            o = a[i].upper()
+            if o == b"COUNT" and i + 1 < len(a):
+                cnt = parse_int(a[i + 1])
+                if cnt is None or cnt < 0:
+                    return ERR
+                i += 2
+            elif o == b"NOACK":
+                noack = True
+                i += 1
+            elif o == b"STREAMS":
+                i += 1
+                break
+            else:
+                return ERR
+        else:
+            return ERR
+        rest = a[i:]
+        if len(rest) != 2 or rest[1] != b">":
+            return ERR
+        key = rest[0]
+        e, grp, err = self._grp(db, key, g)
+        if err is not None:
+            return err
+        if e is None or grp is None:
+            return ERR
+        ids = [x for x in e.v.ids() if x > grp.last]
+        if cnt:
+            ids = ids[:cnt]
+        if not ids:
+            if cons not in grp.consumers:
+                grp.maybe.add(cons)
+            return OneOf([], NULL_ARRAY, None)
+        grp.last = ids[-1]
+        if not noack:
+            grp.consumers.add(cons)
+            grp.maybe.discard(cons)
+            for x in ids:
+                grp.pending[x] = cons
+        elif cons not in grp.consumers:
+            grp.maybe.add(cons)
+        return [[key, [_entry_reply(x, e.v.entries[x]) for x in ids]]]
+
+    def c_XACK(self, db, a):
+        if len(a) < 3:
+            return ERR
+        ids = [parse_id(x) for x in a[2:]]
+        if any(x is None for x in ids):
+            return ERR
+        e, grp, err = self._grp(db, a[0], a[1])
+        if err is not None:
+            return err
+        if e is None or grp is None:
+            return 0
+        n = 0
+        for x in ids:
+            if x in grp.pending:
+                del grp.pending[x]
+                n += 1
+        return n
+
+    def c_XCLAIM(self, db, a):
+        # XCLAIM key group consumer min-idle id... [FORCE] [JUSTID]
+        if len(a) < 5:
+            return ERR
+        key, g, cons = a[0], a[1], a[2]
+        idle = parse_int(a[3])
+        if idle is None or idle < 0:
+            return ERR
+        ids = []
+        force = justid = False
+        for x in a[4:]:
+            u = x.upper()
+            if u == b"FORCE":
+                force = True
+            elif u == b"JUSTID":
+                justid = True
+            else:
+                i = parse_id(x)
+                if i is None:
+                    return ERR
+                ids.append(i)
+        if not ids:
+            return ERR
+        e, grp, err = self._grp(db, key, g)
+        if err is not None:
+            return err
+        if e is None or grp is None:
+            from .model import ANY
+            return ANY if e is None else ERR
+        out = []
+        for i in ids:
+            if i in grp.pending:
+                if idle == 0:
+                    grp.pending[i] = cons
+                    out.append(i)
+            elif force and i in e.v.entries:
+                from .model import ANY
+                return ANY      # FORCE on a non-pending entry is outside the statement (not generated)
+        if out:
+            grp.consumers.add(cons)
+            grp.maybe.discard(cons)
+        elif cons not in grp.consumers:
+            grp.maybe.add(cons)
+        if justid:
+            return [fmt_id(i) for i in out]
+        return [_entry_reply(i, e.v.entries[i]) for i in out if i in e.v.entries]
+
+    def c_XPENDING(self, db, a):
+        if len(a) not in (2, 5, 6):
+            return ERR
+        e, grp, err = self._grp(db, a[0], a[1])
+        if err is not None:
+            return err
+        if e is None or grp is None:
+            from .model import ANY
+            return ANY          # missing key / group: error vs nil is not judged
+        if len(a) == 2:
+            if not grp.pending:
+                return [0, None, None, OneOf([], None, NULL_ARRAY)]
+            ids = sorted(grp.pending)
+            per = {}
+            for i in ids:
+                per[grp.pending[i]] = per.get(grp.pending[i], 0) + 1
+            return [len(ids), fmt_id(ids[0]), fmt_id(ids[-1]),
+                    Unordered([[c, OneOf(n, b"%d" % n)] for c, n in per.items()])]
+        lo = (0, 0) if a[2] == b"-" else parse_id(a[2])
+        hi = (U64, U64) if a[3] == b"+" else parse_id(a[3])
+        cnt = parse_int(a[4])
+        if lo is None or hi is None or cnt is None or cnt < 0:
+            return ERR
+        cons = a[5] if len(a) == 6 else None
+        ids = [i for i in sorted(grp.pending) if lo <= i <= hi and (cons is None or grp.pending[i] == cons)][:cnt]
+        from .model import ANY
+        return [[fmt_id(i), grp.pending[i], ANY, ANY] for i in ids]
+
+    def c_XINFO(self, db, a):
+        from .model import ANY
+        if len(a) < 2:
+            return ERR
+        sub = a[0].upper()
+        e, wt = self._stream(db, a[1])
+        if wt:
+            return ERR
+        if sub == b"GROUPS":
+            if len(a) != 2:
+                return ERR
+            if e is None:
+                return ANY
+            def ginfo(act, g, grp):
+                if not match_info({b"name": g, b"pending": len(grp.pending), b"last-delivered-id": fmt_id(grp.last)}, act):
+                    return False
+                got = {act[i]: act[i + 1] for i in range(0, len(act), 2) if isinstance(act[i], bytes)}
+                n = _as_int(got.get(b"consumers"))
+                return n is not None and len(grp.consumers) <= n <= len(grp.consumers | grp.maybe)
+            return Unordered([Adopt((lambda act, g=g, grp=grp: ginfo(act, g, grp)), "group info %s pending=%d last=%s consumers=%d..%d" % (
+                g, len(grp.pending), fmt_id(grp.last), len(grp.consumers), len(grp.consumers | grp.maybe))) for g, grp in e.v.groups.items()])
+        if sub == b"CONSUMERS":
+            if len(a) != 3:
+                return ERR
+            if e is None:
+                return ANY
+            grp = e.v.groups.get(a[2])
+            if grp is None:
+                return ERR
+            def cinfo(act):
+                if not isinstance(act, list):
+                    return False
+                seen = set()
+                for item in act:
+                    if not isinstance(item, list) or len(item) % 2:
+                        return False
+                    got = {item[i]: item[i + 1] for i in range(0, len(item), 2) if isinstance(item[i], bytes)}
+                    nm = got.get(b"name")
+                    if nm in seen or nm not in (grp.consumers | grp.maybe):
+                        return False
+                    seen.add(nm)
+                    if _as_int(got.get(b"pending")) != sum(1 for x in grp.pending.values() if x == nm):
+                        return False
+                return grp.consumers <= seen
+            return Adopt(cinfo, "one info per consumer of %s with its pending count %s" % (
+                sorted(grp.consumers), {c: sum(1 for x in grp.pending.values() if x == c) for c in grp.consumers}))
+        return ANY
+
+    for name, fn in list(locals().items()):
+        if name.startswith("c_") or name == "_grp":
+            setattr(cls, name, fn)
+    return cls
+
+
+_group_cmds(StreamCommands)
